@@ -282,10 +282,73 @@ KNOWN_REPRO = {"peers": [{"persistent": False, "wait": 3}], "apps": [[0]], "dial
                           ["CLOSE", 0], ["ADV", 1]]}
 
 
+def install_points():
+    from dv import sched, simkernel as sk
+    mods = sk.load_node()
+    N = mods["node"].Node
+    return sched.install({N.remove_peer_connection: r"any_peer_ready|is_ready|app_peer|for app", N._flag_connection_as_ready: None,
+                          N._assign_peer_connection: None})
+
+
+def ready_vs_removal(decisions):
+    """One peer of an application completes its CER (its reader thread flags the application ready) in the same
+    instant in which the application's only other ready peer goes away (the I/O thread recomputes readiness)."""
+    from dv import sched
+    w = W.NodeWorld({"peers": [{"name": "peer1.example", "ip": ["10.1.1.1"]}, {"name": "peer2.example", "ip": ["10.1.1.2"]}],
+                     "apps": [{"app_id": 4, "auth": True, "peers": [0, 1], "handler": "answer"}],
+                     "node_timers": {"idle": 5000, "dwa": 50, "cer": 50, "cea": 50, "wakeup": 5}})
+    try:
+        w.start()
+        # a's socket is older than b's: the I/O loop reads a's CER (handing it to a's reader thread) before it
+        # notices b's EOF in the same turn
+        a = w.accept("10.1.1.1")
+        a.host = "peer1.example"
+        b = w.handshake_in("peer2.example", auth=[4], ip="10.1.1.2", hbh=0x102)
+        ex = sched.Explorer(decisions)
+        sched.attach(w.k, ex)
+        w.feed_msg(a, {"k": "CER", "host": "peer1.example", "auth": [4], "hbh": 0x101, "e2e": 0x101}, run=False)
+        b.peer_closed = True
+        b.remote.close()
+        ex.armed = True
+        w.k.run()
+        ex.armed = False
+        w.advance(1)
+        problems = [(sig, d) for sig, d in W.monitor_tables(w)]
+        for sig, d in W.monitor_threads(w):
+            problems.append((f"thread-died/{sig}", d))
+        return ex.trace, problems
+    finally:
+        w.close()
+
+
+def schedule_part(rec, shard, nshards, thorough):
+    from dv import sched
+    from dv.common import fp
+    info = install_points()
+    if shard == 0:
+        rec.extra["preemption_functions"] = info
+    holder = {}
+
+    def run_one(dec):
+        tr, problems = ready_vs_removal(dec)
+        holder["last"] = problems
+        return tr
+    n = 0
+    for dec, trace in sched.enumerate_schedules(run_one, 3 if thorough else 2, shard, nshards):
+        case = {"ready_vs_removal": True, "schedule": {str(i): c for i, c in sorted(dec.items())}}
+        for kind, detail in holder["last"]:
+            rec.violation(f"C13/concurrent-readiness/{kind}", case, detail)
+        n += 1
+        rec.case(fp("sched", tuple(sorted(dec.items()))) if dec else None, ["schedule-exploration", f"deviations:{len(dec)}"],
+                 sample=lambda: dict(case, choice_points=len(trace)))
+    rec.extra["readiness_schedules"] = rec.extra.get("readiness_schedules", 0) + n
+
+
 def shard_main(shard, nshards, tier, scale):
     rec = Recorder(PID)
     thorough = tier == "thorough"
     shrunk = set()
+    schedule_part(rec, shard, nshards, thorough)
     if shard == 0:
         r = evaluate(KNOWN_REPRO)
         r.classes.append("known-finding-reproduction")
@@ -365,7 +428,7 @@ def run(tier, scale=1.0):
     rec = Recorder(PID)
     for d in hyp.pool_run(shard_main, (tier, scale)):
         rec.merge(d)
-    required = {"cea:identity-of-another-peer": 1, "cer:relay": 1, "cer:mixed-case": 1, "machine:dedicated": 1, "machine:c10": 1, "machine:c06": 1, "machine:c12": 1, "machine:c09": 1, "ev:NODE_CLOSE": 1,
+    required = {"schedule-exploration": 1, "cea:identity-of-another-peer": 1, "cer:relay": 1, "cer:mixed-case": 1, "machine:dedicated": 1, "machine:c10": 1, "machine:c06": 1, "machine:c12": 1, "machine:c09": 1, "ev:NODE_CLOSE": 1,
                 "ev:ACCEPT": 1, "ev:DIAL": 1, "ev:RESET": 1, "ev:WRITE_FAIL": 1}
     return finish(rec, tier=tier, level="exploration", rule=RULE, assumptions=ASSUME, t0=t0,
                   required_classes=required)
